@@ -719,31 +719,30 @@ func (s *Service) ClientClose(client *ClientService) {
 	for i := range s.clients {
 		if s.clients[i] == client {
 
-			// remove registered agents
-			for j := range s.Agents {
-				if s.Agents[j] != nil {
-					if s.Agents[j].client == client {
-						logger.Warn(fmt.Sprintf("%v unregistered agent %v", "["+colors.BoldWhite("SERVICE")+"]", "[Name: "+colors.Blue(s.Agents[j].Name)+"]"))
-
-						// remove from list
-						s.Agents = append(s.Agents[:j], s.Agents[j+1:]...)
-						break
-					}
+			// remove every agent this client registered
+			var agents []*AgentService
+			for _, a := range s.Agents {
+				if a != nil && a.client == client {
+					logger.Warn(fmt.Sprintf("%v unregistered agent %v", "["+colors.BoldWhite("SERVICE")+"]", "[Name: "+colors.Blue(a.Name)+"]"))
+					continue
 				}
+				agents = append(agents, a)
 			}
+			s.Agents = agents
 
-			// remove registered listeners
-			for j := range s.Listeners {
-				if s.Listeners[j] != nil {
-					if s.Listeners[j].client == client {
-						logger.Warn(fmt.Sprintf("%v unregistered a new listener %v %v", "["+colors.BoldWhite("SERVICE")+"]", "[Name: "+colors.Blue(s.Listeners[j].Name)+"]", "[Agent: "+colors.Blue(s.Listeners[j].Agent)+"]"))
-
-						// remove from list
-						s.Listeners = append(s.Listeners[:j], s.Listeners[j+1:]...)
-						break
-					}
+			// remove every listener this client registered
+			var listeners []*ListenerService
+			for _, l := range s.Listeners {
+				if l != nil && l.client == client {
+					logger.Warn(fmt.Sprintf("%v unregistered a new listener %v %v", "["+colors.BoldWhite("SERVICE")+"]", "[Name: "+colors.Blue(l.Name)+"]", "[Agent: "+colors.Blue(l.Agent)+"]"))
+					continue
 				}
+				listeners = append(listeners, l)
 			}
+			s.Listeners = listeners
+
+			// remove the external c2 listeners (and their endpoints) this client started
+			s.Teamserver.ListenerServiceExc2Remove(client)
 
 			// close client connection
 			if s.clients[i].Conn != nil {
@@ -753,8 +752,10 @@ func (s *Service) ClientClose(client *ClientService) {
 				}
 			}
 
-			// remove from list
+			// remove from list. the slice has changed: stop ranging over it
 			s.clients = append(s.clients[:i], s.clients[i+1:]...)
+
+			return
 		}
 	}
 
